@@ -148,5 +148,9 @@ def ttm_scalar(E, s):
     E.true('is_ttm', isinstance(Y, E.tt.TT) and Y.is_ttm)
     E.eq('value', dense(E, Y.cores), ref.reshape(list(Ad.shape)))
     E.true('shape', list(Y.M) == list(s['M']) and list(Y.N) == list(s['N']))
-    E.true('dtype', all(E.dtname(c) == s['dtype'] for c in Y.cores))
+    if s.get('skind') == 'complex' and not s['dtype'].startswith('complex'):
+        # a complex scalar on a real operand: the value clause forces a complex result for a != 0; the property fixes no dtype for a == 0
+        E.true('dtype_consistent', len({E.dtname(c) for c in Y.cores}) == 1)
+    else:
+        E.true('dtype', all(E.dtname(c) == s['dtype'] for c in Y.cores))
     E.eq('operand_intact', dense(E, A.cores), Ad)
